@@ -33,6 +33,10 @@ export function probeForms(n) {
     ['id', I()],
     ['arr-after-hole', X.arr([{ k: 'hole' }, { k: 'v', e: I() }])],
     ['arr-first', X.arr([{ k: 'v', e: I() }, { k: 'hole' }])],
+    ['arr-after-2-holes', X.arr([{ k: 'hole' }, { k: 'hole' }, { k: 'v', e: I() }])],
+    ['arr-after-3-holes', X.arr([{ k: 'v', e: X.num('0') }, { k: 'hole' }, { k: 'hole' }, { k: 'hole' }, { k: 'v', e: I() }])],
+    ['arr-between-holes', X.arr([{ k: 'hole' }, { k: 'v', e: X.num('0') }, { k: 'hole' }, { k: 'v', e: I() }, { k: 'hole' }])],
+    ['arr-hole-then-spread', X.arr([{ k: 'hole' }, { k: 'hole' }, { k: 'spread', e: X.arr([{ k: 'hole' }, { k: 'v', e: I() }]) }])],
     ['arr-spread', X.arr([{ k: 'spread', e: X.arr([{ k: 'v', e: I() }]) }, { k: 'v', e: X.num('1') }])],
     ['arr-after-spread', X.arr([{ k: 'spread', e: X.arr([]) }, { k: 'v', e: I() }])],
     ['call-arg', X.call(X.id('fn'), [s('p'), I()])],
